@@ -32,6 +32,9 @@ def main():
     ctx = runner.Ctx(pid, tier, seed)
     try:
         mod.run(ctx)
+        if tier == "thorough":
+            import selftest
+            selftest.run(ctx, pid)
     except facts.FactsError as e:
         return runner.broken(pid, tier, seed, str(e))
     except Exception:
